@@ -124,9 +124,14 @@ int main(int argc, char** argv) {
         fs.write(name, io ? "io.pressure" : "memory.pressure", b);
         fs.write(name, io ? "memory.pressure" : "io.pressure", "some avg10=99.00 avg60=99.00 avg300=99.00 total=0\nfull avg10=99.00 avg60=99.00 avg300=99.00 total=1\n");
         fs.write(name, "memory.current", std::to_string(anon ? (200 - c.usage) * 1048576LL : c.usage * 1048576LL) + "\n");
-        fs.write(name, "memory.stat", "anon " + std::to_string(anon ? c.usage * 1048576LL : 5) + "\nfile 1\npgscan " + std::to_string(c.pgscan) + "\n");
+        // memory_reclaim sums pgscan over the watched cgroups; one whose memory.stat cannot be read counts as 0, the others
+        // still count (sometimes the file of ONE of several cgroups is missing for a tick)
+        bool statGone = kind == "memory_reclaim" && world.size() > 1 && name == world.begin()->first && r.chance(25);
+        long long shownPgscan = statGone ? 0 : c.pgscan;
+        if (statGone) ::unlink((fs.root() + "/" + name + "/memory.stat").c_str());
+        else fs.write(name, "memory.stat", "anon " + std::to_string(anon ? c.usage * 1048576LL : 5) + "\nfile 1\npgscan " + std::to_string(c.pgscan) + "\n");
         fs.write(name, "cgroup.stat", "nr_descendants 1\nnr_dying_descendants " + std::to_string(c.dying) + "\n");
-        cs.push_back(J().num("p10", c.p10).num("p60", c.p60).num("p300", c.p300).num("usage", c.usage).num("pgscan", c.pgscan).num("dying", c.dying).done());
+        cs.push_back(J().num("p10", c.p10).num("p60", c.p60).num("p300", c.p300).num("usage", c.usage).num("pgscan", shownPgscan).num("dying", c.dying).done());
       }
       long long used = swapTotal ? (swapTotal / 100) * r.pick(std::vector<int>{0, 49, 50, 51, 84, 85, 86, 100}) : 0;
       int sbps = r.pick(std::vector<int>{0, 4095, 4096, 100000});
